@@ -484,6 +484,16 @@ def _dispatch(ctx, prog, enum_b, dec):
     for name, want in (('collision_details', 'self.safety'), ('near', 'param'), ('collides', 'self.safety'), ('non_colliding_offsets', 'self.safety')):
         e = [x for x in prog.find(suffix='collisions::RobotBody::' + name)]
         bodies = e + [c for x in e for c in util.closure_bodies(prog, x.path)]
+        # private helpers of the body that the entry point (or its closures) calls and that take no table / mode of their own
+        # (a helper that does is a forwarder and is judged through fw_names)
+        for x in list(bodies):
+            for bi, t in x.calls():
+                hb = prog.bodies.get(t['callee'].get('resolved')) if t['callee'].get('local') else None
+                if hb is not None and hb not in bodies and hb.kind != 'Closure' and hb.raw.get('impl_self') == 'collisions::RobotBody' and \
+                        cname(hb.path) not in fw_names and hb.path != enum_b.path and \
+                        not any('SafetyDistances' in hb.local_ty(i) or 'CheckMode' in hb.local_ty(i) for i in range(1, hb.arg_count + 1)):
+                    bodies.append(hb)
+                    bodies += util.closure_bodies(prog, hb.path)
         found = None
         kind = None
         mode_kind = None
